@@ -300,6 +300,27 @@ def run(ctx):
                      'with %s: a transport-level failure does not mean the '
                      'first result was not delivered (two results for one '
                      'run)' % hts, ctx.loc(dr, h))
+    # the result of a run goes back exactly when the action has an execution
+    # and is synchronous or failed (an asynchronous action reports its
+    # result itself later: sending it here would complete it twice)
+    direct = [(n, c) for n, c in cfg.calls(
+        lambda c: U.call_name(c) == 'on_action_complete')]
+    if not direct:
+        raise AnalysisError('C06.R4: result send lost in _do_run_action')
+    for n, c in direct:
+        r4.check(U.guarded(cfg, n, 'action_ex_id and (action.is_sync() or '
+                           'result.is_error())', True) or
+                 (U.guarded(cfg, n, 'action_ex_id', True) and
+                  U.guarded(cfg, n, 'action.is_sync() or result.is_error()',
+                            True)),
+                 ctx.construct(dr, extra='send iff sync or error'),
+                 'the result is not sent back exactly when the action has an '
+                 'execution and is synchronous or failed', ctx.loc(dr, c))
+        r4.check(len(c.args) >= 2 and norm(c.args[0]) == 'action_ex_id' and
+                 norm(c.args[1]) == 'result',
+                 ctx.construct(dr, extra='sends this result'),
+                 'what is sent is not (action_ex_id, result)',
+                 ctx.loc(dr, c))
     seb = prog.funcs.get(dr.qname + '.<locals>.send_error_back')
     if seb is None:
         raise AnalysisError('C06.R4: send_error_back helper lost')
@@ -307,6 +328,13 @@ def run(ctx):
                   and U.call_name(x) == 'on_action_complete'])
     r4.check(n_send == 1, ctx.construct(seb), 'send_error_back sends %d '
              'results' % n_send, ctx.loc(seb))
+    scfg = ctx.cfg(seb)
+    r4.check(all(U.guarded(scfg, n, 'action_ex_id', True)
+                 for n, c in U.calls_in(scfg, 'on_action_complete')),
+             ctx.construct(seb, extra='to the engine iff there is an '
+                           'execution'),
+             'the error result is not sent to the engine exactly when the '
+             'run belongs to an action execution', ctx.loc(seb))
     es = prog.func('mistral.executors.executor_server.ExecutorServer.'
                    'run_action')
     fw = [n for n in own_nodes(es.node) if isinstance(n, ast.Call) and
